@@ -148,11 +148,6 @@ open_("F-C03-leaked-diff", "C03",
       shrunk("F-C03-leaked-diff"),
       patterns=[{"check": "replica-apply", "keys": ["*"], "cats": ["*"]}],
       avoid=CLEAN_HIST)
-open_("F-C03-sheet-index", "C03",
-      "after delete_sheet followed by move_sheet the replica fails with 'Invalid worksheet index' (the redo path of DeleteSheet/MoveSheet moves the replica's selection to a sheet that does not exist)",
-      shrunk("F-C03-sheet-index"),
-      patterns=[{"check": "replica-apply", "keys": ["*"], "cats": ["*"]}],
-      avoid=CLEAN_HIST)
 
 # ---------------------------------------------------------------- C04
 fixed("FX-C04-push-before-validate", "C04", "d0a1575",
@@ -241,6 +236,29 @@ fixed("FX-C28-paging-up", "C28", "1556847",
 fixed("FX-C28-area-selecting", "C28", "bade6a0",
       "on_area_selecting after extending the range to the left produced a range that did not contain the selected cell",
       hist("C28", 1, [{"SelectCell": [6, 6]}, {"ExpandSel": "ArrowLeft"}, {"AreaSelecting": [7, 1]}]))
+
+# ---------------------------------------------------------------- C22 / C23
+fixed("FX-C22-quote-name", "C22", "ee7553d",
+      "sheet names containing characters such as ! \" # % & < = > @ ^ ~ or a leading dot were printed unquoted and did not read back (e.g. 'a!b')",
+      {"kind": "sheet-name", "name": "a!b"})
+fixed("FX-C22-quote-name-nbsp", "C22", "ee7553d",
+      "a sheet name containing a no-break space was printed unquoted and did not read back",
+      {"kind": "sheet-name", "name": "a b"})
+fixed("FX-C23-nimpl", "C23", "8e18442",
+      "the not-implemented error was written #N/IMPL, which no parser reads back as the error",
+      {"error": "NIMPL", "language": "xlsx"})
+fixed("FX-C23-es-xnpv", "C23", "0d3cead",
+      "Spanish RECEIVED and XNPV shared the name VNA.NO.PER",
+      {"function": "Xnpv", "language": "es"})
+fixed("FX-C23-fr-tbilleq", "C23", "0d3cead",
+      "French YIELDDISC and TBILLEQ shared the name TAUX.ESCOMPTE.R",
+      {"function": "Tbilleq", "language": "fr"})
+fixed("FX-C03-sheet-index", "C03", "d0cfeae",
+      "after delete_sheet(0) followed by move_sheet the replica failed with 'Invalid worksheet index' (the DeleteSheet redo path left its selection past the end)",
+      hist("C03", 3, [{"DeleteSheet": 0}, {"MoveSheet": [0, 1]}, "Flush"]))
+fixed("FX-C28-redo-delete-first", "C28", "d0cfeae",
+      "redo of deleting the first sheet with the last sheet selected left the selection past the end",
+      hist("C28", 1, ["NewSheet", {"DeleteSheet": 0}, "Undo", {"SelectSheet": 1}, "Redo"]))
 
 def main():
     os.makedirs(os.path.join(HERE, "findings"), exist_ok=True)
